@@ -33,6 +33,7 @@ use lightning_signer::tx::tx::HTLCInfo2;
 use lightning_signer::util::clock::ManualClock;
 use lightning_signer::util::test_utils::key::make_test_pubkey;
 use lightning_signer::util::test_utils::*;
+use lightning_signer::util::velocity::{VelocityControlIntervalType, VelocityControlSpec};
 use std::panic::{catch_unwind, AssertUnwindSafe};
 use std::sync::Arc;
 use std::time::Duration;
@@ -119,12 +120,26 @@ struct World {
     ctx: TestNodeContext,
     chans: Vec<Chan>,
     max_fee: u64,
+    vspec: VelocityControlSpec,
     /// hashes approved while the ghost ledger already had outgoing value for them
     tainted: [bool; NHASH],
+    // ---- the harness's own book of approvals: fed only by the ANSWERS of add_invoice/add_keysend ----
+    /// (amount_msat, prune deadline in seconds) of the approval in force for the hash
+    approved: [Option<(u64, u64)>; NHASH],
+    /// the hash got an Ok(true) answer at some point of the case
+    approved_ever: [bool; NHASH],
+    /// the hash appeared in the contents of an accepted commitment request at some point of the case
+    seen_ever: [bool; NHASH],
+    /// a preimage for the hash was handed over (sticky until the approval lapses: the book may let an approval
+    /// lapse earlier than the node prunes it, never later, so it never demands more than the node promised)
+    fulfilled: [bool; NHASH],
+    /// the last approval answer for the hash was Ok(false)
+    declined: [bool; NHASH],
 }
 
-fn services(persister: Arc<dyn Persist>, clock: Arc<ManualClock>) -> NodeServices {
-    let policy = make_default_simple_policy(Network::Testnet);
+fn services(persister: Arc<dyn Persist>, clock: Arc<ManualClock>, vspec: VelocityControlSpec) -> NodeServices {
+    let mut policy = make_default_simple_policy(Network::Testnet);
+    policy.global_velocity_control = vspec;
     NodeServices {
         validator_factory: Arc::new(SimpleValidatorFactory::new_with_policy(policy)),
         starting_time_factory: make_genesis_starting_time_factory(Network::Testnet),
@@ -151,18 +166,32 @@ fn cp_point(seed: &[u8; 32], n: u64) -> PublicKey {
 }
 
 impl World {
-    fn new(nch: usize) -> World {
+    fn new(nch: usize, vspec: VelocityControlSpec) -> World {
         let persister: Arc<dyn Persist> = Arc::new(KVVPersister(MemoryKVVStore::new([6u8; 16]), JsonFormat));
         let clock = Arc::new(ManualClock::new(Duration::from_secs(T0)));
         let seed = [0x6cu8; 32];
         let config = node_config();
-        let node = Arc::new(Node::new(config, &seed, vec![], services(persister.clone(), clock.clone())));
+        let node = Arc::new(Node::new(config, &seed, vec![], services(persister.clone(), clock.clone(), vspec)));
         persister.new_node(&node.get_id(), &config, &*node.get_state()).unwrap();
         persister.new_tracker(&node.get_id(), &node.get_tracker()).unwrap();
         node.add_allowlist(&[]).unwrap();
         let ctx = TestNodeContext { node, secp_ctx: Secp256k1::signing_only() };
         let max_fee = make_default_simple_policy(Network::Testnet).max_routing_fee_msat;
-        let mut w = World { persister, clock, seed, ctx, chans: vec![], max_fee, tainted: [false; NHASH] };
+        let mut w = World {
+            persister,
+            clock,
+            seed,
+            ctx,
+            chans: vec![],
+            max_fee,
+            vspec,
+            tainted: [false; NHASH],
+            approved: [None; NHASH],
+            approved_ever: [false; NHASH],
+            seen_ever: [false; NHASH],
+            fulfilled: [false; NHASH],
+            declined: [false; NHASH],
+        };
         for i in 0..nch {
             w.open(i);
         }
@@ -232,13 +261,56 @@ impl World {
             };
             parts.push(format!("{} {}", inv, pay));
         }
-        parts.join(" | ")
+        format!("v={} {}", st.velocity_control.velocity(), parts.join(" | "))
     }
 
-    /// (hash has an invoice, hash has a payment entry) as the implementation sees it
+    /// (hash approved, hash seen) according to the harness's own book (answers and accepted contents only)
     fn seen(&self, h: usize) -> (bool, bool) {
-        let st = self.ctx.node.get_state();
-        (st.invoices.contains_key(&phash(h)), st.payments.contains_key(&phash(h)))
+        (self.approved_ever[h], self.seen_ever[h])
+    }
+
+    fn note_seen(&mut self, v: &View) {
+        for x in v.0.iter().chain(v.1.iter()) {
+            self.seen_ever[x.0 % NHASH] = true;
+        }
+    }
+
+    /// what an approval answer means for the harness's book
+    fn note_answer(&mut self, h: usize, answer: Option<bool>, amt: u64, deadline: u64, co: &mut CaseOut) {
+        match answer {
+            Some(true) => {
+                self.approved_ever[h] = true;
+                self.declined[h] = false;
+                if self.approved[h].is_none() {
+                    self.approved[h] = Some((amt, deadline));
+                    self.tainted[h] = self.ledger_totals(h).0 > 0;
+                    if self.tainted[h] {
+                        co.tags.insert("approved-while-outgoing-in-flight".into());
+                    }
+                }
+            }
+            Some(false) => {
+                if self.approved[h].is_none() {
+                    self.declined[h] = true;
+                    co.tags.insert("approval-declined-by-velocity".into());
+                }
+            }
+            None => {}
+        }
+    }
+
+    /// the pruning rule as the property's time model: an approval lapses at a heartbeat after its deadline
+    /// once the payment is complete (preimage seen, or nothing outgoing in flight any more)
+    fn lapse_approvals(&mut self, now: u64) {
+        for h in 0..NHASH {
+            if let Some((_, deadline)) = self.approved[h] {
+                if now > deadline && (self.fulfilled[h] || self.ledger_totals(h).0 == 0) {
+                    self.approved[h] = None;
+                    self.fulfilled[h] = false;
+                    self.tainted[h] = false;
+                }
+            }
+        }
     }
 
     fn ledger_totals(&self, h: usize) -> (u128, u128) {
@@ -253,10 +325,8 @@ impl World {
 
     /// conservation inequality on the ghost ledger for every approved hash
     fn check_conservation(&self, at: usize, co: &mut CaseOut) {
-        let approved: Vec<(usize, u64)> = {
-            let st = self.ctx.node.get_state();
-            (0..NHASH).filter_map(|h| st.invoices.get(&phash(h)).map(|i| (h, i.amount_msat))).collect()
-        };
+        // approved = the harness got Ok(true) for the hash (and the approval has not lapsed); never node state
+        let approved: Vec<(usize, u64)> = (0..NHASH).filter_map(|h| self.approved[h].map(|(a, _)| (h, a))).collect();
         for (h, amt) in approved {
             let (out, inc) = self.ledger_totals(h);
             if out * 1000 > inc * 1000 + amt as u128 + self.max_fee as u128 {
@@ -283,12 +353,14 @@ impl World {
             }
             let (out, inc) = Chan::out_in(hv, cv, h);
             if out > inc {
-                co.tags.insert("monitor:unbacked-outgoing-accepted".into());
+                // the sharper kind: the only thing the signer ever answered about this hash was a refusal
+                let kind = if self.declined[h] { "refused-approval-backs-htlc" } else { "unbacked-outgoing-accepted" };
+                co.tags.insert(format!("monitor:{}", kind));
                 co.violations.push(Violation {
-                    kind: "unbacked-outgoing-accepted".into(),
+                    kind: kind.into(),
                     desc: format!(
-                        "hash {} (no invoice, never seen): update accepted with {} sat outgoing vs {} sat incoming on the channel",
-                        h, out, inc
+                        "hash {} (never approved{}, never seen in an accepted commitment): update accepted with {} sat outgoing vs {} sat incoming on the channel",
+                        h, if self.declined[h] { "; its approval was answered Ok(false)" } else { "" }, out, inc
                     ),
                     at,
                 });
@@ -296,6 +368,18 @@ impl World {
         }
     }
 }
+
+/// `init <nch> [<limit_msat> h|d]`: the node-wide velocity limit of the world (default: unlimited)
+fn vspec_of(t: &[&str]) -> VelocityControlSpec {
+    match (t.get(2).and_then(|x| x.parse::<u64>().ok()), t.get(3)) {
+        (Some(l), Some(&"h")) => VelocityControlSpec { limit_msat: l, interval_type: VelocityControlIntervalType::Hourly },
+        (Some(l), Some(&"d")) => VelocityControlSpec { limit_msat: l, interval_type: VelocityControlIntervalType::Daily },
+        _ => VelocityControlSpec::UNLIMITED,
+    }
+}
+
+const KEYSEND_EXPIRY: u64 = 60; // payment_state_from_keysend; KEYSEND_PRUNE_TIME = 0
+const INVOICE_PRUNE_TIME: u64 = 86_400;
 
 fn status_tag(msg: &str) -> String {
     // "policy failure: <function>: ..." -> the function that refused
@@ -397,7 +481,8 @@ impl Group for C06Node {
         "one real Node with 2-3 channels; payment hashes from an alphabet of 3; HTLC values around the approved amounts \
          (amount, amount+fee allowance, +1 sat, 10%/11% fee) and cltv values around the cltv_delta bound; random interleavings of \
          counterparty-commitment signing, holder-commitment validation and revocation per channel with diverging holder/counterparty \
-         views, multi-part splits over channels, add/remove, retries, keysend approvals (incl. duplicates and u64 extremes), \
+         views, multi-part splits over channels, add/remove, retries, approvals through add_keysend and add_invoice (real signed BOLT-11; duplicates, different invoice for the same hash, u64 extremes), \
+         a third of the worlds under a finite hourly node-wide velocity limit (refused approvals followed by HTLCs for the hash and by retried approvals), \
          preimages, heartbeat pruning under a manual clock, restarts through the real persister; a case is non-trivial when it \
          contains an accepted commitment request carrying HTLCs and a refused commitment request"
     }
@@ -411,10 +496,14 @@ impl Group for C06Node {
     fn model_line(&self, op: &str) -> Option<String> {
         let t: Vec<&str> = op.split_whitespace().collect();
         match t.as_slice() {
-            ["init", nch] => {
+            ["init", nch, rest @ ..] => {
                 // the policy numbers are read from the crate the harness is linked against
                 let p = make_default_simple_policy(Network::Testnet);
-                Some(format!("init {} {} {} {}", nch, p.max_routing_fee_msat, p.max_feerate_percentage, p.cltv_delta))
+                let (vl, vt) = match rest {
+                    [l, ty] if *ty == "h" || *ty == "d" => (l.to_string(), ty.to_string()),
+                    _ => ("0".to_string(), "u".to_string()),
+                };
+                Some(format!("init {} {} {} {} {} {}", nch, p.max_routing_fee_msat, p.max_feerate_percentage, p.cltv_delta, vl, vt))
             }
             _ => Some(op.to_string()),
         }
@@ -438,6 +527,17 @@ impl Group for C06Node {
             split(&format!("init 2|keysend 2 5000000 {t}|restart|cpsign 0 new - 2:2000:500|heartbeat {}|keysend 1 7 {t}|restart|heartbeat {}", t + 10, t + 20)),
             // fee percentage edge: 2000 sat approved, 10% ok, 11% refused; cltv delta edge
             split(&format!("init 2|keysend 0 2000000 {t}|cpsign 0 new - 0:2200:500|cprevoke 0|cpsign 0 new - 0:2220:500|hval 1 new - 1:50000:520|revoke 1|cpsign 1 new 1:50000:520 1:50000:515|cprevoke 1|cpsign 1 new 1:50000:520 -|cpsign 1 new - -")),
+            // finite node-wide velocity limit: an over-limit approval answers Ok(false) and must back nothing —
+            // the outgoing HTLC for its hash is refused on both kinds of commitment, a retried approval is refused
+            // again; a smaller approval that fits is accepted; the count survives a restart; an hour later it fits
+            split(&format!(
+                "init 2 150000000 h|invoice 0 100000000 {t} 3600 0|invoice 1 100000000 {t} 3600 0|cpsign 0 new - 1:100000:500|invoice 1 100000000 {t} 3600 0|keysend 1 100000000 {t}|hval 0 new 1:100000:500 -|keysend 1 50000000 {t}|cpsign 0 new - 1:50222:500|restart|keysend 2 1000 {}|cpsign 1 new - 2:600:500|keysend 2 1000 {}|cpsign 1 new - 2:600:500",
+                t + 10, t + 4000)),
+            // BOLT-11 approvals: identical repeat = Ok(true), a different invoice or a keysend for the same hash = Err;
+            // pruning a day after expiry
+            split(&format!(
+                "init 2|invoice 0 100000000 {t} 3600 0|invoice 0 100000000 {t} 3600 0|invoice 0 100000000 {t} 3600 1|keysend 0 100000000 {t}|cpsign 0 new - 0:100222:500|fulfill 0 0|cprevoke 0|cpsign 0 new - -|heartbeat {}|heartbeat {}|cpsign 1 new - 0:600:500",
+                t + 90_000, t + 90_001)),
             // u64 extreme approval: a + max_routing_fee overflows
             split(&format!("init 2|keysend 0 18446744073709551615 {t}|cpsign 0 new - 0:2000:500|cpsign 1 new - -")),
         ]
@@ -446,6 +546,19 @@ impl Group for C06Node {
         let nch = rng.range(2, 3) as usize;
         let mut ops = vec![format!("init {}", nch)];
         let mut now = T0;
+        // a third of the worlds run under a finite node-wide velocity limit (hourly), so that approvals get refused
+        let vlimit: Option<u64> =
+            if rng.chance(1, 3) { Some(*rng.pick(&[150_000_000u64, 100_000_000, 250_000_000, 2_100_000])) } else { None };
+        if let Some(l) = vlimit {
+            ops[0] = format!("init {} {} h", nch, l);
+        }
+        let approval = |rng: &mut Rng, h: u64, amt: u64, now: u64| -> String {
+            if rng.chance(1, 2) && amt <= 1_000_000_000_000 {
+                format!("invoice {} {} {} 3600 {}", h, amt, now, rng.below(2))
+            } else {
+                format!("keysend {} {} {}", h, amt, now)
+            }
+        };
         let mut sims: Vec<Sim> = vec![Sim::default(); nch];
         // cases with u64-extreme approvals (overflow panics) use plain cltv values only, see random_htlc
         let extreme = rng.chance(1, 6);
@@ -453,7 +566,8 @@ impl Group for C06Node {
         // most cases start with one or two approvals so that outgoing HTLCs have something to pay
         for _ in 0..rng.below(3) {
             let amt = *rng.pick(&[100_000_000u64, 100_000_000, 50_000_000, 2_000_000]);
-            ops.push(format!("keysend {} {} {}", rng.below(NHASH as u64), amt, now));
+            let h = rng.below(NHASH as u64);
+            ops.push(approval(rng, h, amt, now));
         }
         if rng.chance(1, 4) {
             // cross-channel time-of-check/time-of-use shape (F2) with random parameters: a pending holder
@@ -496,7 +610,28 @@ impl Group for C06Node {
                         7 => 200_000_000,
                         _ => 100_000_000,
                     };
-                    ops.push(format!("keysend {} {} {}", h, amt, now));
+                    let line = approval(rng, h, amt, now);
+                    ops.push(line.clone());
+                    if vlimit.is_some() && rng.chance(1, 2) {
+                        // the approval may have been refused by the velocity limit: try to pay it anyway, then ask again
+                        let v = (amt / 1000).clamp(600, 200_000);
+                        let s = &mut sims[c];
+                        if rng.chance(1, 2) {
+                            s.cp_out.push((h as usize, v, 500));
+                            ops.push(format!("cprevoke {}", c));
+                            ops.push(s.cpsign(c, "new"));
+                        } else {
+                            s.h_out.push((h as usize, v, 500));
+                            ops.push(s.hval(c, "new"));
+                            ops.push(format!("revoke {}", c));
+                        }
+                        if s.cp_out.len() + s.cp_inc.len() > 5 || s.h_out.len() + s.h_inc.len() > 5 {
+                            *s = Sim::default();
+                        }
+                        if rng.chance(1, 2) {
+                            ops.push(line);
+                        }
+                    }
                 }
                 12..=26 => {
                     // full add of one HTLC on one channel: three requests in one of two orders
@@ -577,7 +712,7 @@ impl Group for C06Node {
             let t: Vec<&str> = op.split_whitespace().collect();
             if t.first() == Some(&"init") {
                 let nch: usize = t.get(1).and_then(|x| x.parse().ok()).unwrap_or(2).clamp(1, 4);
-                let w = World::new(nch);
+                let w = World::new(nch, vspec_of(&t));
                 co.out.push(format!("ok {}", w.digest()));
                 world = Some(w);
                 dead = false;
@@ -614,6 +749,17 @@ impl Group for C06Node {
     }
 }
 
+fn approval_class(r: &Result<bool, lightning_signer::util::status::Status>, op: &str, co: &mut CaseOut) -> String {
+    match r {
+        Ok(true) => "true".into(),
+        Ok(false) => "false".into(),
+        Err(e) => {
+            co.tags.insert(format!("{}:err:{}", op, if e.message().contains("different") { "different-invoice" } else { "other" }));
+            "err".into()
+        }
+    }
+}
+
 /// executes one op; returns (result class, the request carried HTLCs)
 fn exec_op(w: &mut World, t: &[&str], at: usize, co: &mut CaseOut) -> Option<(String, bool)> {
     match t {
@@ -621,25 +767,40 @@ fn exec_op(w: &mut World, t: &[&str], at: usize, co: &mut CaseOut) -> Option<(St
             let h: usize = h.parse().ok()?;
             let amt: u64 = amt.parse().ok()?;
             let now: u64 = now.parse().ok()?;
+            let h = h % NHASH;
             w.clock.set(Duration::from_secs(now));
-            let had = w.seen(h % NHASH).0;
-            let r = w.ctx.node.add_keysend(make_test_pubkey(1), phash(h % NHASH), amt);
-            Some((
-                match r {
-                    Ok(true) => {
-                        if !had {
-                            w.tainted[h % NHASH] = w.ledger_totals(h % NHASH).0 > 0;
-                            if w.tainted[h % NHASH] {
-                                co.tags.insert("approved-while-outgoing-in-flight".into());
-                            }
-                        }
-                        "true".into()
-                    }
-                    Ok(false) => "false".into(),
-                    Err(_) => "err".into(),
-                },
-                false,
-            ))
+            let r = w.ctx.node.add_keysend(make_test_pubkey(1), phash(h), amt);
+            let cls = approval_class(&r, "keysend", co);
+            w.note_answer(h, r.ok(), amt, now + KEYSEND_EXPIRY, co);
+            Some((cls, false))
+        }
+        ["invoice", h, amt, now, expiry, tag] => {
+            // a real signed BOLT-11 invoice for the hash, issued at `now`
+            use lightning_signer::invoice::Invoice;
+            use lightning_signer::lightning::types::payment::PaymentSecret;
+            use lightning_signer::lightning_invoice::{Currency, InvoiceBuilder};
+            let h: usize = h.parse().ok()?;
+            let amt: u64 = amt.parse().ok()?;
+            let now: u64 = now.parse().ok()?;
+            let expiry: u64 = expiry.parse().ok()?;
+            let tag: u64 = tag.parse().ok()?;
+            let h = h % NHASH;
+            w.clock.set(Duration::from_secs(now));
+            let key = SecretKey::from_slice(&[42; 32]).unwrap();
+            let inv = InvoiceBuilder::new(Currency::BitcoinTestnet)
+                .description(format!("verif{}", tag))
+                .payment_hash(Sha256Hash::from_byte_array(phash(h).0))
+                .payment_secret(PaymentSecret([h as u8 + 1; 32]))
+                .duration_since_epoch(Duration::from_secs(now))
+                .expiry_time(Duration::from_secs(expiry))
+                .min_final_cltv_expiry_delta(144)
+                .amount_milli_satoshis(amt)
+                .build_signed(|hash| Secp256k1::new().sign_ecdsa_recoverable(hash, &key))
+                .ok()?;
+            let r = w.ctx.node.add_invoice(Invoice::Bolt11(inv));
+            let cls = approval_class(&r, "invoice", co);
+            w.note_answer(h, r.ok(), amt, now + expiry + INVOICE_PRUNE_TIME, co);
+            Some((cls, false))
         }
         ["cpsign", c, kind, off, rcv] => {
             let c: usize = c.parse().ok()?;
@@ -676,6 +837,7 @@ fn exec_op(w: &mut World, t: &[&str], at: usize, co: &mut CaseOut) -> Option<(St
                         }
                         let hv = w.chans[c].g_hcur.clone();
                         w.check_unbacked(at, &pre_seen, &hv, &view, co);
+                        w.note_seen(&view);
                         w.check_conservation(at, co);
                         "ok".into()
                     }
@@ -720,6 +882,7 @@ fn exec_op(w: &mut World, t: &[&str], at: usize, co: &mut CaseOut) -> Option<(St
                         }
                         let cv = w.chans[c].g_ccur.clone();
                         w.check_unbacked(at, &pre_seen, &view, &cv, co);
+                        w.note_seen(&view);
                         w.check_conservation(at, co);
                         "ok".into()
                     }
@@ -802,23 +965,20 @@ fn exec_op(w: &mut World, t: &[&str], at: usize, co: &mut CaseOut) -> Option<(St
                     Ok(())
                 })
                 .expect("htlcs_fulfilled");
+            w.fulfilled[h % NHASH] = true;
             Some(("ok".into(), false))
         }
         ["heartbeat", now] => {
             let now: u64 = now.parse().ok()?;
             w.clock.set(Duration::from_secs(now));
             let _ = w.ctx.node.get_heartbeat();
-            for h in 0..NHASH {
-                if !w.seen(h).0 {
-                    w.tainted[h] = false;
-                }
-            }
+            w.lapse_approvals(now);
             Some(("ok".into(), false))
         }
         ["restart"] => {
             let (node_id, entry) = w.persister.get_nodes().unwrap().into_iter().next().unwrap();
             // drop the old node first: the restored one is built from the store only
-            let placeholder = Node::restore_node(&node_id, entry, &w.seed, services(w.persister.clone(), w.clock.clone())).unwrap();
+            let placeholder = Node::restore_node(&node_id, entry, &w.seed, services(w.persister.clone(), w.clock.clone(), w.vspec)).unwrap();
             w.ctx = TestNodeContext { node: placeholder, secp_ctx: Secp256k1::signing_only() };
             Some(("ok".into(), false))
         }
